@@ -1898,6 +1898,8 @@ class Interp:
             st.event("leaf", b["def"], tuple(valkey(a) for a in args))
             self.leaf_calls.setdefault(b["def"], []).append((tuple(args), st))
             return [(st, self.leaf_app(st, b, args))]
+        if (b.get("impl_trait") or "").endswith("convert::From"):
+            st.event("from_impl", b.get("impl_trait_ref") or b["def"])      # which conversion built a value (error provenance)
         genv = None
         if b.get("generics") and target is not None:
             ga = target.get("args") or []
